@@ -53,6 +53,7 @@ type mWorld struct {
 	counts  []mEmit // child COUNT emissions
 	okRule  func(child int, id string, k int) (bool, string)
 	cntRule func(child int, sub string, k int) uint64
+	apxRule func(child int, sub string, k int) *bool // the "approximate" member of a child's COUNT reply (nil rule: absent)
 	// per child: client EVENT / COUNT messages read from its inbound channel
 	gotEvents []atomic.Int64
 	gotCounts []atomic.Int64
@@ -218,7 +219,11 @@ func (c *mChild) ServeNostr(ctx context.Context, send chan<- mocrelay.ServerMsg,
 						}
 					}
 					jitter(&seed)
-					if e, ok := c.emit(ctx, send, mocrelay.NewServerCountMsg(sub, c.w.cntRule(c.idx, sub, k), nil)); ok {
+					var apx *bool
+					if c.w.apxRule != nil {
+						apx = c.w.apxRule(c.idx, sub, k)
+					}
+					if e, ok := c.emit(ctx, send, mocrelay.NewServerCountMsg(sub, c.w.cntRule(c.idx, sub, k), apx)); ok {
 						c.w.mu.Lock()
 						c.w.counts = append(c.w.counts, e)
 						c.w.mu.Unlock()
